@@ -137,6 +137,16 @@ package vm
 //@ call (*VM).throw requires[released] ncalls("(*refCounter).Remove") == 1 + ncalls("(*refCounter).Add")
 //@ ensures[released] ncalls("(*refCounter).Remove") == 1 + ncalls("(*refCounter).Add")
 
+// SETITEM on a Map: the key operand is released by its Pop; a referenced map then counts the key
+// again exactly when it is a new key (an existing key stays in the map, the old value is released
+// instead), an unreferenced map releases the value; what goes into the map is the key and the value
+// (the clone, for a struct).
+//@ case SETITEM_MAP
+//@ requires op == opcode.SETITEM && v.getPrice == nil && wfStack(v.estack) && len(v.estack.elems) >= 3 && is(v.estack.elems[len(v.estack.elems)-3].value, *stackitem.Map) && stackitem.wfMap(v.estack.elems[len(v.estack.elems)-3].value.(*stackitem.Map))
+//@ call (*Map).Add requires[stored] arg1 == key.value && arg2 == cloned
+//@ call (*refCounter).Add requires[newkey] arg1 == cloned || (arg1 == key.value && t.count != 0 && !has(t.dict, stackitem.hcOf(key.value)))
+//@ ensures[once] ncalls("(*refCounter).Remove") + ncalls("(*refCounter).Add") == 1 || (ncalls("(*refCounter).Remove") + ncalls("(*refCounter).Add") == 3 && ncalls("(*refCounter).Remove") >= 1 && ncalls("(*refCounter).Add") >= 1)
+
 // VALUES copies the values of a collection into a new array. Copying out of a collection that is
 // still referenced: every value put into the copy is counted (the clone, for a struct). Copying out
 // of one that is not: the values were counted through it and stay so, only a struct is swapped
